@@ -17,17 +17,20 @@ func clip8(i int32) uint8 {
 	return uint8(i)
 }
 
+// inverseDCT4: /verif change - all arithmetic widened to int64 so that no product or sum
+// overflows for any int16 coefficient (upstream uses int32, whose c1 products wrap for
+// |coefficient| > 25079). Results are identical wherever upstream does not overflow.
 func (z *Decoder) inverseDCT4(y, x, coeffBase int) {
 	const (
 		c1 = 85627 // 65536 * cos(pi/8) * sqrt(2).
 		c2 = 35468 // 65536 * sin(pi/8) * sqrt(2).
 	)
-	var m [4][4]int32
+	var m [4][4]int64
 	for i := 0; i < 4; i++ {
-		a := int32(z.coeff[coeffBase+0]) + int32(z.coeff[coeffBase+8])
-		b := int32(z.coeff[coeffBase+0]) - int32(z.coeff[coeffBase+8])
-		c := (int32(z.coeff[coeffBase+4])*c2)>>16 - (int32(z.coeff[coeffBase+12])*c1)>>16
-		d := (int32(z.coeff[coeffBase+4])*c1)>>16 + (int32(z.coeff[coeffBase+12])*c2)>>16
+		a := int64(z.coeff[coeffBase+0]) + int64(z.coeff[coeffBase+8])
+		b := int64(z.coeff[coeffBase+0]) - int64(z.coeff[coeffBase+8])
+		c := (int64(z.coeff[coeffBase+4])*c2)>>16 - (int64(z.coeff[coeffBase+12])*c1)>>16
+		d := (int64(z.coeff[coeffBase+4])*c1)>>16 + (int64(z.coeff[coeffBase+12])*c2)>>16
 		m[i][0] = a + d
 		m[i][1] = b + c
 		m[i][2] = b - c
@@ -40,11 +43,21 @@ func (z *Decoder) inverseDCT4(y, x, coeffBase int) {
 		b := dc - m[2][j]
 		c := (m[1][j]*c2)>>16 - (m[3][j]*c1)>>16
 		d := (m[1][j]*c1)>>16 + (m[3][j]*c2)>>16
-		z.ybr[y+j][x+0] = clip8(int32(z.ybr[y+j][x+0]) + (a+d)>>3)
-		z.ybr[y+j][x+1] = clip8(int32(z.ybr[y+j][x+1]) + (b+c)>>3)
-		z.ybr[y+j][x+2] = clip8(int32(z.ybr[y+j][x+2]) + (b-c)>>3)
-		z.ybr[y+j][x+3] = clip8(int32(z.ybr[y+j][x+3]) + (a-d)>>3)
+		z.ybr[y+j][x+0] = clip8w(int64(z.ybr[y+j][x+0]) + (a+d)>>3)
+		z.ybr[y+j][x+1] = clip8w(int64(z.ybr[y+j][x+1]) + (b+c)>>3)
+		z.ybr[y+j][x+2] = clip8w(int64(z.ybr[y+j][x+2]) + (b-c)>>3)
+		z.ybr[y+j][x+3] = clip8w(int64(z.ybr[y+j][x+3]) + (a-d)>>3)
 	}
+}
+
+func clip8w(i int64) uint8 {
+	if i < 0 {
+		return 0
+	}
+	if i > 255 {
+		return 255
+	}
+	return uint8(i)
 }
 
 func (z *Decoder) inverseDCT4DCOnly(y, x, coeffBase int) {
